@@ -27,7 +27,7 @@ import (
 )
 
 func TestMain(m *testing.M) {
-	vlib.Rule("C24: rapid-generated entries (all attribute fields, 0-120 chunks on both sides of the >50 compression threshold with file ids spelled canonically / with leading zeros / upper case / as Fid structs, source ids, cipher keys, flags; extended attributes; hard-link id+counter; inline content incl. 1f8b-prefixed bytes and real gzip; remote info) inserted and then updated (hard-linked entries often keep their link id while the counter moves within {1,2,3} and the content changes, with an optional third write) through filer.FilerStoreWrapper on leveldb, leveldb2 and leveldb3 (plain, bucket-subdirectory and bucket-root paths); after each write FindEntry, ListDirectoryEntries and ListDirectoryPrefixedEntries must return the entry. Non-trivial = >50 chunks, or gzip-looking content/extended value, or a chunk with source id or cipher key. Distinct = distinct (store, path kind, entry pair) description.")
+	vlib.Rule("C24: rapid-generated entries (all attribute fields, 0-120 chunks on both sides of the >50 compression threshold with file ids spelled canonically / with leading zeros / upper case / as Fid structs, source ids, cipher keys, flags; extended attributes; hard-link id+counter; inline content incl. 1f8b-prefixed bytes and real gzip; remote info) inserted and then updated (hard-linked entries often keep their link id while the counter moves within {1,2,3} and the content changes, with an optional third write) through filer.FilerStoreWrapper on leveldb, leveldb2 and leveldb3 (plain, bucket-subdirectory and bucket-root paths); after each write FindEntry, ListDirectoryEntries and ListDirectoryPrefixedEntries must return the entry. Concurrent part: 4-16 goroutines released together each insert and update 3-8 entries of 51-300 chunks (all above the stores' len(entry.Chunks) > 50 gzip threshold) in their own directory, then everything is read back sequentially; every path must hold what its writer stored last. Non-trivial = >50 chunks, or gzip-looking content/extended value, or a chunk with source id or cipher key. Distinct = distinct (store, path kind, entry pair) description.")
 	vlib.Assume("C24: string fields are valid UTF-8 (protobuf refuses others), times are whole seconds, names contain no NUL or '/', entries carrying a hard-link id are files with counter >= 1 (never directories), chunk file ids are well-formed with file key >= 1 (key 0 prints as 0,00000000 which ParseFileIdFromString rejects; sequencers start at 1); one store instance per kind is shared by all cases of a process, each case using its own directory.")
 	vlib.Assume("C24: ListDirectoryPrefixedEntries on these stores returns chunks with the Fid struct only (the wrapper does not call AfterEntryDeserialization on that path); the check accepts that as the same file id and compares after filling in the string form.")
 	vlib.Main(m) // exits the process; the scratch directories of the stores are removed by vlib
@@ -505,7 +505,11 @@ func describe(e *filer.Entry) string {
 
 var ctx = context.Background()
 
-func verify(t *rapid.T, s *filer.FilerStoreWrapper, kind, step string, want *filer.Entry) {
+type failer interface {
+	Fatalf(format string, args ...interface{})
+}
+
+func verify(t failer, s *filer.FilerStoreWrapper, kind, step string, want *filer.Entry) {
 	dir, name := want.FullPath.DirAndName()
 
 	got, err := s.FindEntry(ctx, want.FullPath)
